@@ -224,9 +224,11 @@ def check_state(chk, st, where, replay_extra=None, exact=False):
             return abs(true_gain(st, *c)[0] - g) <= tol
         return True
 
+    answers = {}
     for name, mod in IMPLS.items():
         try:
             g, c = impl_split(mod, st)
+            answers[name] = (g, c)
         except Exception as e:  # noqa
             chk.fail(f"find_best_split[{name}]:exception", f"{type(e).__name__}: {e}", replay)
             info["bad"] = True
@@ -281,8 +283,8 @@ def check_state(chk, st, where, replay_extra=None, exact=False):
                 if key in (KEY_F7, KEY_F8):
                     info["known"].add(key)
                     chk.dist["known:" + key] += 1
-    if "so" in info["kinds"] and "pyx" in info["kinds"] and IMPLS:
-        pass
+    if len(answers) == 2 and abs(answers["so"][0] - answers["pyx"][0]) > tol:
+        chk.dist["so-vs-pyx-disagree"] += 1      # reported in the evidence: the compiled module is stale w.r.t. the source
     for name, kd in info["kinds"].items():
         chk.dist[f"chosen[{name}]:{kd}"] += 1
     return info
@@ -580,8 +582,8 @@ def stream_corpus(chk, i, rng):
     chk.count(("corpus", os.path.basename(files[i])))
 
 
-STREAMS = {"corpus": (stream_corpus, 8, 8), "states": (stream_states, 1500, 30000), "realloc": (stream_realloc, 2500, 40000),
-           "exact": (stream_exact, 400, 8000), "fit": (stream_fit, 260, 5000)}
+STREAMS = {"corpus": (stream_corpus, 8, 8), "states": (stream_states, 1500, 24000), "realloc": (stream_realloc, 2500, 30000),
+           "exact": (stream_exact, 400, 8000), "fit": (stream_fit, 260, 4000)}
 
 
 def main():
@@ -607,6 +609,9 @@ def main():
                 cnt *= 3
             chk.run_stream(name, fn, cnt)
     chosen = {k: v for k, v in chk.dist.items() if k.startswith("chosen[")}
+    if chk.dist.get("so-vs-pyx-disagree"):
+        chk.notes.append(f"the compiled gemclus.tree._utils and the desugared _utils.pyx disagree on {chk.dist['so-vs-pyx-disagree']} states: "
+                         "the .so is stale with respect to the source (it cannot be rebuilt here: no Cython)")
     chk.finish(rule="streams: random TREE STATES (random leaf partitions, leaf->cluster maps with multi-leaf clusters, K_max-n_clusters in 0..3, "
                     "min_leaf 1..3, leaf and feature subsets, rounded/grid/duplicated data, PSD/indefinite/sigmoid/rbf/linear/integer kernels) and every state "
                     "met by find_best_split during real Kauri.fit runs; on each state the compiled module and the desugared .pyx are compared with the extracted "
